@@ -14,6 +14,7 @@
 #include "vf.h"
 
 const char *vf_name = "c04_cxx";
+using namespace mpt;
 
 typedef std::vector<uint8_t> bytes;
 static uint8_t nextv;
@@ -103,9 +104,9 @@ static void case_arrays(vf_rng *r)
 	std::string desc = "mpt::array x3 + slice:";
 	vf_fp_u64(0xa11);
 	static const char *names[] = { "assign", "set", "append", "insert", "prepend", "printf", "string", "clear",
-	                               "slice_open", "slice_shift", "slice_trim", "slice_write", "slice_drop", "assign_slice", "append_op" };
+	                               "slice_open", "slice_shift", "slice_trim", "slice_write", "slice_drop", "assign_slice", "append_op", "set_value" };
 	for (int i = 0; i < nops; i++) {
-		int op = (int) vf_below(r, 15), h = (int) vf_below(r, NA), g = (int) vf_below(r, NA);
+		int op = (int) vf_below(r, 16), h = (int) vf_below(r, NA), g = (int) vf_below(r, NA);
 		size_t used = st.s[h].size(), len = pick_len(r, used), pos = vf_chance(r, 1, 6) ? used + 1 + vf_below(r, 40) : vf_below(r, (uint32_t) used + 1);
 		if (i < 4) op = (i & 1) ? 0 : 2;
 		char cb[200];
@@ -120,6 +121,7 @@ static void case_arrays(vf_rng *r)
 		if (desc.size() < 1600) desc += std::string(" ") + names[op] + "(" + std::to_string(h) + "," + std::to_string(pos) + "," + std::to_string(len) + ")";
 		const mpt::array::content *c0 = st.a[h].data();
 		bool typed = c0 && c0->content_traits();
+		bool ischar = typed && c0->content_traits() == mpt::type_traits::get('c');
 		switch (op) {
 		case 0: vf_at("array::operator="); st.a[h] = st.a[g]; st.s[h] = st.s[g]; break;
 		case 1: {
@@ -151,7 +153,8 @@ static void case_arrays(vf_rng *r)
 			if (op == 4) pos = 0;
 			void *p = op == 3 ? st.a[h].insert(pos, len, in.data()) : st.a[h].prepend(len, in.data());
 			if (!p) {
-				VF_CHECK(!(pos + len), key(names[op], "refused"), "%s: NULL", ctx.c_str());
+				/* typed content (element size > 1) may refuse unaligned positions */
+				VF_CHECK(!(pos + len) || (typed && !ischar), key(names[op], "refused"), "%s: NULL", ctx.c_str());
 				break;
 			}
 			if (typed) { /* typed content is replaced by a raw buffer: adopt */
@@ -163,7 +166,7 @@ static void case_arrays(vf_rng *r)
 			VF_CHECK(p == (void *) (q + pos), key(names[op], "return-address"), "%s: returned address is not data+pos", ctx.c_str());
 			break; }
 		case 5: {
-			if (c0 && !typed) break;
+			if (c0 && !ischar) break;
 			vf_at("array::printf");
 			size_t want = std::min<size_t>(len, 300);
 			std::string t(want, 'x');
@@ -174,7 +177,7 @@ static void case_arrays(vf_rng *r)
 			st.s[h].insert(st.s[h].end(), exp.begin(), exp.end());
 			break; }
 		case 6: {
-			if (!typed) break;
+			if (!ischar) break;
 			vf_at("array::string");
 			char *s = st.a[h].string();
 			VF_CHECK(s != 0, key("string", "refused"), "%s: NULL", ctx.c_str());
@@ -230,6 +233,27 @@ static void case_arrays(vf_rng *r)
 			target = NA;
 			break; }
 		case 12: delete st.sl; st.sl = 0; st.ss.clear(); break;
+		case 15: {
+			/* assignment from a generic value: text, byte vector or scalar */
+			vf_at("array::set(value)");
+			mpt::value v;
+			int kind = (int) vf_below(r, 3);
+			bytes in = fresh(len > 300 ? 300 : len);
+			for (auto &b : in) if (!b) b = 1;
+			std::string txt(in.begin(), in.end());
+			const char *tp = txt.c_str();
+			struct iovec vec; vec.iov_base = in.data(); vec.iov_len = in.size();
+			uint32_t scalar = 0x01020304u + (uint32_t) pos;
+			bytes expect;
+			if (kind == 0) { v.set('s', &tp); expect = in; expect.push_back(0); }
+			else if (kind == 1) { v.set(MPT_type_toVector('y'), &vec); expect = in; }
+			else { v.set('u', &scalar); expect.assign((uint8_t *) &scalar, (uint8_t *) &scalar + 4); }
+			int ret = st.a[h].set(v);
+			snprintf(cb, sizeof(cb), "set_value(kind=%d,len=%zu) -> %d", kind, in.size(), ret);
+			ctx = cb; vf_log("%s", cb);
+			VF_CHECK(ret >= 0, key("set_value", "refused"), "%s", ctx.c_str());
+			st.s[h] = expect;
+			break; }
 		case 13: {
 			if (!st.sl) break;
 			vf_at("array::operator=(slice)");
